@@ -33,6 +33,7 @@ LEAVES = [
     ('comment', lambda w: N('html', lines=['<!-- ' + w + ' -->'])),
     ('table', lambda w: N('table', aligns=[None, 1], header=[w, 'h'], rows=[['c', 'd']])),
     ('linkdef', lambda w: N('linkdef', label=w, dest='/u', title='t')),
+    ('linkdef-2-lines', lambda w: N('linkdef', label=w, dest='/u', title='t2', title_style='nextline')),
 ]
 LEAF_NAMES = [n for n, _ in LEAVES]
 CONTAINERS = ['quote', 'ul', 'ol', 'ul2']   # ul2 = bullet list with two items
@@ -119,8 +120,8 @@ def valid(blocks, in_item=False):
             for it in b.items:
                 if not valid(it, True):
                     return False
-                if it and it[0].kind == 'indented':
-                    return False            # item starting with indented code has its own rules (spec 5.2 rule 2)
+                if it and it[0].kind == 'indented' and len(it) > 1 and it[1].kind not in ('para', 'atx', 'quote', 'fence'):
+                    return False            # keep what follows an item-initial code block simple
                 if it and it[0].kind == 'hr':
                     return False            # '- ***' is fine but '* ***' is a thematic break; kept out
     return True
@@ -204,6 +205,10 @@ def needs_blank(a, b, o):
         return b.kind not in ('para', 'linkdef', 'atx')
     if a.kind in ('atx', 'hr', 'fence'):
         return not (b.kind in ('para', 'atx', 'hr', 'fence', 'setext', 'quote', 'list')
+                    or (b.kind == 'html' and b.lines[0] == '<div>'))
+    if a.kind == 'linkdef':
+        # a definition ends with its line; the next line may start any of these blocks directly
+        return not (b.kind in ('para', 'atx', 'fence', 'setext', 'quote', 'list', 'linkdef')
                     or (b.kind == 'html' and b.lines[0] == '<div>'))
     return True
 
@@ -321,19 +326,21 @@ def write_block(b, rec, o, base, no_indent=False):
             item = N('item')
             rec.append((item, base + len(out)))
             b._items.append(item)
-            bf = bool(o['item_blank_first'] and it)
+            code_first = bool(it) and it[0].kind == 'indented'
+            bf = bool(o['item_blank_first'] and it) and not code_first
             inner = write_doc(it, rec, o, base + len(out) + (1 if bf else 0), in_item=True)
             if not inner:
                 out.append(' ' * o['lindent'] + m + (' ' if o['renderer_form'] else ''))
                 continue
-            width = len(m) + (1 if bf else o['pad']) + o['lindent']
+            pad = 1 if (bf or code_first) else o['pad']      # spec 5.2 rule 2: exactly one space before an item-initial code block
+            width = len(m) + pad + o['lindent']
             m = ' ' * o['lindent'] + m
             lz = lazy_lines(it, o) if o['lazy'] else ()
             if bf:
                 out.append(m)
                 out += [' ' * width + l if l else '' for l in inner]
             else:
-                out.append(m + ' ' * o['pad'] + inner[0])
+                out.append(m + ' ' * pad + inner[0])
                 out += [(l if (i + 1) in lz else ' ' * width + l) if l else '' for i, l in enumerate(inner[1:])]
         return out
     raise KeyError(k)
